@@ -217,9 +217,13 @@ def rule_redeclared_running_step(ctx):
     ins = [s_ for s_ in stm if s_.kind == "INSERT" and any(w[0] == "INSERT" and w[1] == "step" for w in s_.writes)]
     ctx.check(bool(sel) and bool(dele) and sel[0].site.lineno < dele[0].site.lineno, ir.fq, "the old row is read before it is deleted", "the old state is not read (or only after the row is gone)", "SELECT state ... before DELETE", where=ctx.where_of(ir))
     src = ast.unparse(ir.node)
-    keeps_state = re.search(r"StepState\.RUNNING if \w+ else StepState\.PENDING", src) is not None or re.search(r"StepState\.PENDING if not \w+ else StepState\.RUNNING", src) is not None
-    flag_ok = any(isinstance(a, ast.Assign) and "StepState.RUNNING" in ast.unparse(a.value) and "==" in ast.unparse(a.value) for a in ast.walk(ir.node))
-    ctx.check(keeps_state and flag_ok, ir.fq, "a row that was RUNNING is written as RUNNING again, every other one as PENDING", "the new row is PENDING whatever the old one was: the step is dispatched a second time next to its running command", "RUNNING iff the old row was RUNNING")
+    # the flag: the old state is one of the two transient states; the new state: the old one when the flag holds, PENDING otherwise
+    flag_defs = [a for a in ast.walk(ir.node) if isinstance(a, ast.Assign) and len(a.targets) == 1 and isinstance(a.targets[0], ast.Name) and "StepState.RUNNING" in ast.unparse(a.value)]
+    flag = flag_defs[0].targets[0].id if flag_defs else None
+    fsrc = ast.unparse(flag_defs[0].value) if flag_defs else ""
+    flag_ok = flag is not None and "StepState.CHECKING" in fsrc and re.search(r"(==| in )", fsrc) is not None and "is not None" in fsrc
+    keeps_state = flag is not None and (re.search(rf"\w+\[0\] if {flag} else StepState\.PENDING\.value", src) is not None or re.search(rf"StepState\.RUNNING if {flag} else StepState\.PENDING", src) is not None)
+    ctx.check(keeps_state and flag_ok, ir.fq, "a row that was RUNNING or CHECKING keeps that state, every other one is written as PENDING", "the new row is PENDING although a job of the step is in flight: the step is dispatched a second time next to it", "old state kept iff it was RUNNING or CHECKING")
     holds = bool(ins) and "_holding" in re.sub(r"\s+", " ", ins[0].text) and re.search(r"'holding': \w+\[1\] if \w+ else 0", src) is not None
     ctx.check(holds, ir.fq, "the open-hold counter of a running step is carried over", "a re-declared running step loses its open holds: the steps it is holding back are released while the block is still open", "_holding carried over")
     ej = ctx.prog.func("executor.Executor.execute_job")
@@ -247,11 +251,26 @@ def rule_redeclared_running_step(ctx):
     # what the replaced command was declared to write is recorded before the step is made pending (C07: it can be removed later)
     seq = [callee_name(c) for c in calls_in(rs.node)]
     upd = [c for c in calls_in(rs.node) if callee_name(c) == "update_file_hashes"]
+    ok_dyn = re.search(r"run\.step\.out_paths\(raw=True\)", rsrc) is not None
+    ctx.check(ok_dyn, rs.fq, "the former outputs the re-created step is still linked to (amended ones included) are hashed as well", "only the outputs declared at launch are recorded: a file the replaced command declared with amend(out=...) stays on disk for ever", "out_paths(raw=True)")
     ok_out = bool(upd) and any(k.arg == "cause" and "FAILED" in ast.unparse(k.value) for k in upd[0].keywords) and "compute_out_hashes" in rsrc and re.search(r"run\.launched_decl\[2\]", rsrc) is not None and seq.index("update_file_hashes") < seq.index("set_state")
     ctx.check(ok_out, rs.fq, "the outputs the command was launched with are hashed and recorded before the restart", "the early return skips the output hashes: a file written by the replaced command under a path the new declaration no longer has keeps state PLANNED without hash, is forgotten at cleanup and stays on disk", "compute_out_hashes(launched outputs) -> update_file_hashes(cause=FAILED)")
     starts = [c for c in calls_in(ej.node) if isinstance(c.func, ast.Attribute) and c.func.attr == "discard" and ast.unparse(c.func.value).endswith("declared_again")]
     first_await = min((a.lineno for a in ast.walk(ej.node) if isinstance(a, ast.Await)), default=10 ** 9)
     ctx.check(len(starts) == 1 and starts[0].lineno < first_await, ej.fq, "a run starts without a note left by an earlier command of the step", "a note that survived an early exit discards the verdict of an unrelated later run (one needless execution)", "declared_again.discard(step.i) before the first await")
+    dc = ctx.prog.func("executor.Executor._discard_check_if_declared_again")
+    dsrc = re.sub(r"\s+", " ", ast.unparse(dc.node))
+    ctx.check("step.i not in self.workflow.declared_again" in dsrc and "declared_again.discard(step.i)" in dsrc and any(callee_name(c) == "_reset_step_to_pending" for c in calls_in(dc.node)), dc.fq, "a hash check of a step that was declared again is dropped: hash deleted, step pending", "the check completes on hashes of the declaration that is gone", "consult, clear, _reset_step_to_pending")
+    for fq_, final in (("executor.Executor.try_skip_job", "mark_completed"), ("executor.Executor.validate_dynamic_job", "set_state")):
+        fj = ctx.prog.func(fq_)
+        bad_path = None
+        for tr, st in flow.paths_of(fj):
+            calls_ = [e[1].split(".")[-1] for e in tr if e[0] == "call"]
+            if final in calls_ and "_reset_step_to_pending" not in calls_ and "_finalize_failed_run" not in calls_:
+                k = calls_.index(final)
+                if "_discard_check_if_declared_again" not in calls_[:k]:
+                    bad_path = [(e[1], e[2]) for e in tr if e[0] == "test"][-3:]
+        ctx.check(bad_path is None, fq_, f"the verdict of the check ({final}) is only applied after asking whether the step was declared again", f"a path (last tests {bad_path}) lets the step off on the hashes of a declaration that was replaced while the check ran", "guarded", where=ctx.where_of(fj))
     names = [callee_name(c) for c in calls_in(rs.node)]
     ctx.check("delete_hash" in names and any(callee_name(c) == "set_state" and c.args and ast.unparse(c.args[0]) == "StepState.PENDING" for c in calls_in(rs.node)) and "mark_completed" not in names, rs.fq, "a replaced declaration ends the run without a verdict: hash deleted, step pending", "the run is completed (or keeps its hash) although the declaration it ran for is gone", "delete_hash + set_state(PENDING)")
     dec = ctx.prog.func("executor.Executor._declaration")
@@ -309,7 +328,7 @@ def rule_pool_initialised(ctx):
 
 
 RULES = [
-    Rule("R-C12-10", "a step declared again while running keeps its row and is run again afterwards", rule_redeclared_running_step, min_instances=11),
+    Rule("R-C12-10", "a step declared again while running keeps its row and is run again afterwards", rule_redeclared_running_step, min_instances=15),
     Rule("R-C12-9", "the resource pool is initialised from the command line", rule_pool_initialised, min_instances=1),
     Rule("R-C12-8", "steps (re)attached inside a hold block are re-examined (hold clause relies on the _safe recomputation)", C10.rule_step_overrides, min_instances=8),
     Rule("R-C12-7", "resource claims are replaced on declaration", rule_claims_replaced, min_instances=7),
@@ -322,11 +341,14 @@ RULES = [
 ]
 
 MUTANTS = [
+    Mutant("amended-outputs-of-replaced-command-forgotten", "executor.py", in_function("Executor._restart_if_declared_again", replace_once("            paths.update(record.path for record in run.step.out_paths(raw=True))\n", "")), ("R-C12-10",)),
+    Mutant("checked-step-let-off-after-redeclaration", "executor.py", in_function("Executor.try_skip_job", replace_once("        if await self._discard_check_if_declared_again(step):\n            return\n", "")), ("R-C12-10",)),
+    Mutant("checking-row-reset-by-redeclaration", "step.py", in_function("Step.initialize_row", lambda t: t.replace("        still_running = old_row is not None and old_row[0] in (\n            StepState.RUNNING.value,\n            StepState.CHECKING.value,\n        )\n", "        still_running = old_row is not None and old_row[0] == StepState.RUNNING.value\n", 1) if "StepState.CHECKING.value,\n        )" in t else None), ("R-C12-10",)),
     Mutant("stale-note-survives-early-exit", "executor.py", in_function("Executor.execute_job", replace_once("        self.workflow.declared_again.discard(step.i)\n", "")), ("R-C12-10",)),
     Mutant("redeclaration-compared-by-value-only", "step.py", in_function("Step.initialize_row", replace_once("        if still_running:\n            self.graph.declared_again.add(self.i)\n", "")), ("R-C12-10",)),
     Mutant("replaced-command-outputs-forgotten", "executor.py", in_function("Executor._restart_if_declared_again", replace_once("                self.workflow.update_file_hashes(result.new_hashes, cause=HashUpdateCause.FAILED)\n", "                pass\n")), ("R-C12-10",)),
     Mutant("declared-again-never-cleared", "executor.py", in_function("Executor._restart_if_declared_again", replace_once("            self.workflow.declared_again.discard(run.step.i)\n", "")), ("R-C12-10",)),
-    Mutant("redeclared-running-row-reset", "step.py", in_function("Step.initialize_row", replace_once('"state": (StepState.RUNNING if still_running else StepState.PENDING).value,', '"state": StepState.PENDING.value,')), ("R-C12-10",)),
+    Mutant("redeclared-running-row-reset", "step.py", in_function("Step.initialize_row", replace_once('"state": old_row[0] if still_running else StepState.PENDING.value,', '"state": StepState.PENDING.value,')), ("R-C12-10",)),
     Mutant("redeclared-running-loses-holds", "step.py", in_function("Step.initialize_row", replace_once('"holding": old_row[1] if still_running else 0,', '"holding": 0,')), ("R-C12-10",)),
     Mutant("replaced-declaration-completes", "executor.py", in_function("Executor._restart_if_declared_again", replace_once("            if not declared_again and run.launched_decl == self._declaration(run.step):\n                return False\n", "            return False\n")), ("R-C12-10",)),
     Mutant("pool-never-filled", "scheduler.py", in_function("Scheduler.initialize", lambda t: __import__("re").sub(r"\n( +)self\.db\.executemany\(\s*INSERT_AVAILABLE_RESOURCE,[^\n]*(?:\n[^\n]*)*?\n\1\)\n|\n( +)self\.db\.executemany\(INSERT_AVAILABLE_RESOURCE,[^\n]*\)\n", lambda m: "\n" + (m.group(1) or m.group(2)) + "pass\n", t, count=1) if "INSERT_AVAILABLE_RESOURCE" in t else None), ("R-C12-9",)),
